@@ -48,6 +48,10 @@ func main() {
 		h.GenConvMix(rng, n, emit)
 	case "reply":
 		h.GenReply(rng, thorough, emit)
+	case "c13x":
+		h.GenC13x(rng, thorough, emit)
+	case "c17conv":
+		h.GenC17conv(rng, thorough, emit)
 	case "life":
 		h.GenLife(rng, thorough, emit)
 	case "lmtp":
